@@ -141,6 +141,10 @@ class walk_tree(object):
                             # Is the matched segment the beginning of a loop?
                             if node.is_loop() \
                                     and self._is_loop_match(node, seg_data, errh, seg_count, cur_line, ls_id):
+                                # We come from a segment of this loop and the loop repeats: what the
+                                # instance that ends here still required has not been looked at yet
+                                if orig_node.is_segment():
+                                    self._add_missing_after(node, ord1, seg_data, errh, seg_count, cur_line, ls_id)
                                 (
                                     node1, push_node_list) = self._goto_seg_match(node, seg_data,
                                                                                   errh, seg_count, cur_line, ls_id)
@@ -185,6 +189,22 @@ class walk_tree(object):
 
         walk_tree._seg_not_found_error(orig_node, seg_data, errh, seg_count, cur_line, ls_id)
         return (None, [], [])
+
+    def _add_missing_after(self, loop_node, pos, seg_data, errh, seg_count, cur_line, ls_id):
+        """
+        Queue a missing error for every required child of loop_node positioned after pos
+        that has not occurred in the current loop instance
+        """
+        for ord2 in [a for a in sorted(loop_node.pos_map) if a > pos]:
+            for sibling in loop_node.pos_map[ord2]:
+                if sibling.is_segment():
+                    if sibling.usage == 'R' and self.counter.get_count(sibling.x12path) < 1:
+                        fake_seg = pyx12.segment.Segment('%s' % (sibling.id), '~', '*', ':')
+                        err_str = 'Mandatory segment "%s" (%s) missing' % (sibling.name, sibling.id)
+                        self.mandatory_segs_missing.append((sibling, fake_seg, '3', err_str, seg_count, cur_line, ls_id))
+                elif sibling.is_loop():
+                    # queues 'Mandatory loop missing' as a side effect
+                    self._is_loop_match(sibling, seg_data, errh, seg_count, cur_line, ls_id)
 
     def getCountState(self):
         return self.counter.getState()
